@@ -673,10 +673,54 @@ def r_visit_tables(c):
         raise AnalysisError(f"only {n} cached walker rec methods found")
 
 
+def r_conditional_passthrough(c):
+    """an element of a child-carrying field is handed on UNMAPPED only because it
+    is no array (a scalar binding of a loopy call): `v if <test> else self.rec(v)`
+    with any other test skips children of some type (bare inputs, say), and what a
+    mapper overrides for that type -- substituting placeholders -- never happens"""
+    m = c.model
+    n = 0
+    fams = [COPY, COPYX] + m.subclasses(COPY, strict=True) + m.subclasses(COPYX, strict=True)
+    done = set()
+    for q in fams:
+        ci = m.classes[q]
+        for mn, fd in ci.methods.items():
+            if (q, mn) in done or not (mn.startswith("map_") or mn.startswith("_map_")):
+                continue
+            done.add((q, mn))
+            for ie in ast.walk(fd):
+                if not isinstance(ie, ast.IfExp):
+                    continue
+                arms = (ie.body, ie.orelse)
+
+                def recs(a):
+                    return [x for x in ast.walk(a) if isinstance(x, ast.Call)
+                            and ast.unparse(x.func).startswith("self.rec") and x.args
+                            and isinstance(x.args[0], ast.Name)]
+                for raw, other in (arms, arms[::-1]):
+                    if isinstance(raw, ast.Name) and any(
+                            r.args[0].id == raw.id for r in recs(other)):
+                        n += 1
+                        v = raw.id
+                        t = ast.unparse(ie.test)
+                        raw_is_else = raw is ie.orelse
+                        ok = (raw_is_else and t == f"isinstance({v}, Array)") or (
+                            not raw_is_else and t == f"not isinstance({v}, Array)")
+                        c.check(ok, "R13-CHILDREN-OVR", f"{short(q)}.{mn}",
+                                f"unmapped-only-if-not-an-array:{m.frag(ie, 40)}",
+                                m.loc(ci.module, ie),
+                                f"`{m.frag(ie, 70)}` passes `{v}` on without mapping it under "
+                                f"the test `{t}`, which is not `not an Array`: children of "
+                                "that kind are never visited by this mapper or its "
+                                "subclasses")
+    if n < 2:
+        raise AnalysisError(f"only {n} conditional pass-throughs found (floor 2)")
+
+
 SPEC = Spec(
     prop="C13",
     rules=[r_children, r_children_overrides, r_once, r_key, r_collision, r_clone,
-           r_eq_memo, r_state, r_shared_or, r_visit_tables],
+           r_eq_memo, r_state, r_shared_or, r_visit_tables, r_conditional_passthrough],
     floors={"R13-CHILDREN": 250, "R13-ONCE": 14, "R13-KEY": 20,
             "R13-COLLISION": 8, "R13-DOUBLE-CACHE": 8, "R13-CHILDREN-OVR": 20,
             "R13-CLONE": 12, "R13-EQ-MEMO": 25, "R13-STATE": 8},
